@@ -179,7 +179,7 @@ impl Family for Schedules {
         600
     }
     fn rule(&self) -> &'static str {
-        "12 programs with a spawner and 1-2 `go` closures (racy read, spin-wait, lost update, print race, by-value capture, nested go, two workers, spawner continues, go in a loop, handshake, no wait, ref inside a struct); stateless DFS over every schedule of the emitted Go (run by the Go interpreter under a controlled scheduler) and of the reference semantics, yielding at every Ref operation, print and loop back-edge (quick: preemption bound 2; thorough: unbounded, capped at 50000 schedules); oracle: equal sets of terminal observations (stdout, end); states = scheduling points visited, transitions = schedules executed; non-trivial = programs with > 1 distinct outcome"
+        "12 programs with a spawner and 1-2 `go` closures (racy read, spin-wait, lost update, print race, by-value capture, nested go, two workers, spawner continues, go in a loop, handshake, no wait, ref inside a struct); stateless DFS over every schedule of the emitted Go (run by the Go interpreter under a controlled scheduler) and of the reference semantics, yielding at every Ref operation, print and loop back-edge (quick: preemption bound 2; thorough: preemption bounds 2, 3, 4, 6, 8 and unbounded in turn, each capped at 50000 schedules per side - the largest bound that completes decides and is reported per program); oracle: equal sets of terminal observations (stdout, end); states = scheduling points visited, transitions = schedules executed; non-trivial = programs with > 1 distinct outcome"
     }
     fn cases(&self, _tier: Tier) -> Box<dyn Iterator<Item = Value> + '_> {
         Box::new(PROGRAMS.iter().map(|p| json!({"program": p})))
@@ -189,7 +189,11 @@ impl Family for Schedules {
         let name = case["program"].as_str().unwrap();
         let prog = build(name);
         let text = print::print_main(&prog);
-        let (bound, cap) = if ctx.tier == Tier::Quick { (Some(2), 20_000) } else { (None, 50_000) };
+        // quick: preemption bound 2. thorough: the bound is iterated 2, 3, 4, ... and finally dropped; the
+        // largest bound whose exploration of both sides completes under the cap is the one that decides
+        // (a capped exploration never does), and it is reported.
+        let cap: u64 = if ctx.tier == Tier::Quick { 20_000 } else { 50_000 };
+        let bounds: Vec<Option<u32>> = if ctx.tier == Tier::Quick { vec![Some(2)] } else { vec![Some(2), Some(3), Some(4), Some(6), Some(8), None] };
         let fuel = 200_000;
         let path = ctx.scratch.single_path();
         let comp = match compile_at(&path, &text) {
@@ -228,7 +232,8 @@ impl Family for Schedules {
             }
             (o, trace)
         };
-        let ex_go = sched::explore(&mut run_go, bound, cap);
+        let mut decided: Option<(Option<u32>, sched::Exploration<Obs>, sched::Exploration<Obs>)> = None;
+        let mut capped_at: Option<Option<u32>> = None;
         let ref_points = std::cell::Cell::new(0u64);
         let mut run_ref = |prefix: &[usize]| {
             let (r, trace, div) = sched::ref_side::run_with_schedule(&prog, fuel, prefix);
@@ -239,7 +244,27 @@ impl Family for Schedules {
             }
             (o, trace)
         };
-        let ex_ref = sched::explore(&mut run_ref, bound, cap);
+        for bound in bounds {
+            let g = sched::explore(&mut run_go, bound, cap);
+            let r = sched::explore(&mut run_ref, bound, cap);
+            if g.capped || r.capped {
+                capped_at = Some(bound);
+                if decided.is_none() {
+                    decided = Some((bound, g, r));
+                }
+                break;
+            }
+            let closed = bound.is_none();
+            decided = Some((bound, g, r));
+            if closed {
+                break;
+            }
+        }
+        let (bound_used, ex_go, ex_ref) = decided.unwrap();
+        rep.tag(format!("preemption-bound-completed:{}", match (ex_go.capped || ex_ref.capped, bound_used) { (true, _) => "none".to_string(), (false, Some(b)) => b.to_string(), (false, None) => "unbounded".to_string() }));
+        if let Some(b) = capped_at {
+            rep.tag(format!("cap-hit-at-bound:{}", b.map(|x| x.to_string()).unwrap_or_else(|| "unbounded".into())));
+        }
         rep.states = go_points.get() + ref_points.get();
         rep.transitions = ex_go.schedules + ex_ref.schedules;
         rep.sub_evaluations = ex_go.schedules + ex_ref.schedules;
